@@ -23,6 +23,8 @@ func init() {
 }
 
 func runC16(c *core.Ctx) {
+	c.Rule("ENDFLUSH", "the end-of-stream flush bound is above every event time")
+	checkFlushBound(c, "ENDFLUSH")
 	c.Rule("TIMEEQ", "time.Time values are compared with Equal/Before/After, never with ==")
 	checkTimeEquality(c, "TIMEEQ", "execution", "execution/nodes", "octosql", "aggregates", "table_valued_functions", "outputs", "functions", "datasources")
 	c.Rule("TRIGNR", "a trigger declared retraction-free cannot fire a key twice")
